@@ -280,4 +280,601 @@ theorem strRest_sb (b : List Nat) (hb : StringBody b) (hs : Small b) (rest : Byt
     have : (c == '\'') = false := by simp at hr; simp; exact hr
     simp [strLoop, this]
 
+
+/-! ### `seekInstanceEnd` over the pieces of a parameter list (raw comment skipping) -/
+
+theorem seekEnd_char (f : Nat) (d : Int) (acc : List Nat) (c : Char) (r : Bytes)
+    (h : (c == '(') = false ∧ (c == '/') = false ∧ (c == '\'') = false ∧ (c == '=') = false ∧ (c == '#') = false ∧ (c == ')') = false) :
+    seekEnd (f + 1) d acc (c :: r) = seekEnd f d acc r := by
+  simp only [seekEnd, h.1, h.2.1, h.2.2.1, h.2.2.2.1, h.2.2.2.2.1, h.2.2.2.2.2, Bool.false_eq_true, ↓reduceIte]
+
+theorem space_plain (c : Char) (h : isSpace c = true) :
+    (c == '(') = false ∧ (c == '/') = false ∧ (c == '\'') = false ∧ (c == '=') = false ∧ (c == '#') = false ∧ (c == ')') = false := by
+  have a := space_ne c h
+  have b := space_ne2 c h
+  simp [a.2.1, a.2.2.1, a.2.2.2, b.1, b.2.1, b.2.2]
+
+theorem seekEnd_spaces : ∀ (ws : Bytes), ws.all isSpace = true → ∀ (f : Nat) (d : Int) (acc : List Nat) (r : Bytes),
+    seekEnd (f + ws.length) d acc (ws ++ r) = seekEnd f d acc r := by
+  intro ws
+  induction ws with
+  | nil => intro _ f d acc r; rfl
+  | cons w t ih =>
+    intro h f d acc r
+    simp only [List.all_cons, Bool.and_eq_true] at h
+    have : f + (w :: t).length = (f + t.length) + 1 := by simp; omega
+    rw [this, List.cons_append, seekEnd_char _ _ _ _ _ (space_plain w h.1)]
+    exact ih h.2 f d acc r
+
+theorem seekEnd_plains : ∀ (t : List Nat), Small t → t.all lplain = true → ∀ (f : Nat) (d : Int) (acc : List Nat) (r : Bytes),
+    seekEnd (f + t.length) d acc (cs t ++ r) = seekEnd f d acc r := by
+  intro t
+  induction t with
+  | nil => intro _ _ f d acc r; rfl
+  | cons a u ih =>
+    intro hs h f d acc r
+    simp only [List.all_cons, Bool.and_eq_true] at h
+    have : f + (a :: u).length = (f + u.length) + 1 := by simp; omega
+    rw [this, cs_cons, List.cons_append, seekEnd_char _ _ _ _ _ (lplain_ch a hs.cons.1 h.1)]
+    exact ih hs.cons.2 h.2 f d acc r
+
+theorem gap_len (g : Gap) (ws : Bytes) : ∀ r, (gapRender g ws r).length = (gapRender g ws []).length + r.length :=
+  fun r => gapRender_length g ws r
+
+/-- a gap (white space and comments) inside the parameter list is passed without effect -/
+theorem seekEnd_gap (hraw : commentsRaw = true) (ws : Bytes) (hws : ws.all isSpace = true) :
+    ∀ (g : Gap), gapOk g = true → ∀ (k f : Nat) (d : Int) (acc : List Nat) (r : Bytes),
+      (gapRender g ws []).length + k ≤ f →
+      ∃ f', k ≤ f' ∧ seekEnd f d acc (gapRender g ws r) = seekEnd f' d acc r := by
+  intro g
+  induction g with
+  | nil =>
+    intro _ k f d acc r hf
+    simp only [gapRender, List.append_nil] at hf
+    refine ⟨f - ws.length, by omega, ?_⟩
+    have : f = (f - ws.length) + ws.length := by omega
+    rw [this]
+    simp only [gapRender]
+    rw [seekEnd_spaces ws hws]
+    simp
+  | cons p t ih =>
+    intro hg k f d acc r hf
+    obtain ⟨w, b⟩ := p
+    have hg' := hg
+    simp only [gapOk, List.all_cons, Bool.and_eq_true] at hg'
+    have hl : (gapRender ((w, b) :: t) ws []).length = w.length + b.length + 4 + (gapRender t ws []).length := by
+      simp [gapRender]; omega
+    obtain ⟨f0, hf0⟩ : ∃ f0, f = (f0 + 1) + w.length := ⟨f - w.length - 1, by omega⟩
+    obtain ⟨f', hk, he⟩ := ih hg'.2 k f0 d acc r (by omega)
+    refine ⟨f', hk, ?_⟩
+    rw [hf0]
+    simp only [gapRender]
+    rw [seekEnd_spaces w hg'.1.1]
+    have hb : noCloseFrom '\x00' b = true := by
+      have := hg'.1.2; unfold cmtOk at this; rw [hraw] at this; simpa using this
+    have hsc : skipComment f0 ('*' :: (b ++ '*' :: '/' :: gapRender t ws r)) = .ok (gapRender t ws r) := by
+      unfold skipComment; rw [hraw]; simp only [↓reduceIte]
+      exact rawLoop_body _ b _ hb
+    have e1 : ('/' == '(') = false := by decide
+    simp only [seekEnd, e1, beq_self_eq_true, ↓reduceIte, List.head?_cons, hsc, Bool.false_eq_true]
+    exact he
+
+/-- the parameter tokens the composition covers, with the references they mention:
+    any token of bytes without `( ) / ' = #` (`$`, `*`, INTEGER, REAL, NUMBER, `.ENUM.`, `"BINARY"`), a string literal of the
+    grammar, an entity reference -/
+inductive LazyTok : List Nat → List Nat → Prop where
+  | plain (t : List Nat) (h : t.all lplain = true) : LazyTok t []
+  | string (b : List Nat) (h : StringBody b) : LazyTok (39 :: (b ++ [39])) []
+  | ref (ds : List Nat) (hne : ds ≠ []) (hds : ds.all StepModel.isDigit = true)
+      (hhi : StepModel.digitsVal ds 0 ≤ instanceIdMax) : LazyTok (35 :: ds) [StepModel.digitsVal ds 0]
+
+/-- a token followed by something that is neither a digit nor an apostrophe -/
+theorem seekEnd_tok (t : List Nat) (refs : List Nat) (h : LazyTok t refs) (hs : Small t) (k f : Nat) (d : Int) (acc : List Nat)
+    (r : Bytes) (hr1 : ∀ c, r.head? = some c → isDigit c = false) (hr2 : r.head? ≠ some '\'') (hf : t.length + k ≤ f) :
+    ∃ f', k ≤ f' ∧ seekEnd f d acc (cs t ++ r) = seekEnd f' d (refs.reverse ++ acc) r := by
+  cases h with
+  | plain t hp =>
+    refine ⟨f - t.length, by omega, ?_⟩
+    have : f = (f - t.length) + t.length := by omega
+    rw [this, seekEnd_plains t hs hp]; simp
+  | string b hb =>
+    obtain ⟨f0, rfl⟩ : ∃ f0, f = f0 + 1 := ⟨f - 1, by simp at hf; omega⟩
+    refine ⟨f0, by simp at hf; omega, ?_⟩
+    have hsb : Small b := hs.cons.2.app.1
+    have e : cs (39 :: (b ++ [39])) ++ r = '\'' :: (cs b ++ '\'' :: r) := by simp [cs, ch]
+    have e1 : ('\'' == '(') = false := by decide
+    have e2 : ('\'' == '/') = false := by decide
+    rw [e]
+    simp only [seekEnd, e1, e2, beq_self_eq_true, ↓reduceIte, Bool.false_eq_true, strRest_sb b hb hsb r hr2]
+    simp
+  | ref ds hne hds hhi =>
+    obtain ⟨f0, rfl⟩ : ∃ f0, f = f0 + 1 := ⟨f - 1, by simp at hf; omega⟩
+    refine ⟨f0, by simp at hf; omega, ?_⟩
+    have hsd : Small ds := hs.cons.2
+    have hd := all_digit_cs ds hsd hds
+    obtain ⟨d0, dt, hdd⟩ : ∃ d0 dt, cs ds = d0 :: dt := by
+      cases ds with
+      | nil => exact absurd rfl hne
+      | cons a b => exact ⟨ch a, cs b, rfl⟩
+    have hd0 : isDigit d0 = true := by rw [hdd] at hd; simp at hd; exact hd.1
+    have htd : takeDigits (cs ds ++ r) = (cs ds, r) := takeDigits_append (cs ds) hd r hr1
+    have hsk : skipWS (cs ds ++ r) = cs ds ++ r := by rw [hdd]; exact skipWS_nonspace _ _ (isDigit_not_space d0 hd0)
+    have hv : digitsVal (cs ds) = StepModel.digitsVal ds 0 := digitsVal_cs0 ds hsd
+    have hgt : ¬ digitsVal (cs ds) > instanceIdMax := by rw [hv]; omega
+    have e : cs (35 :: ds) ++ r = '#' :: (cs ds ++ r) := by simp [cs, ch]
+    rw [e]
+    simp (config := { decide := true }) only [seekEnd, Bool.false_eq_true, ↓reduceIte]
+    rw [hsk]
+    rw [hdd] at htd hgt hv ⊢
+    simp only [List.cons_append, hd0, ↓reduceIte]
+    rw [← List.cons_append, htd]
+    simp only [hv]
+    have hgt' : ¬ StepModel.digitsVal ds 0 > instanceIdMax := by omega
+    simp [hgt']
+
+
+/-! ### parameter lists, records, sections of the eager grammar under the lazy scanner -/
+
+/-- the references a parameter token mentions -/
+def tokRefs : List Nat → List Nat
+  | 35 :: ds => [StepModel.digitsVal ds 0]
+  | _ => []
+
+theorem lazyTok_refs (t refs : List Nat) (h : LazyTok t refs) : refs = tokRefs t := by
+  cases h with
+  | plain t hp =>
+    cases t with
+    | nil => rfl
+    | cons a u =>
+      simp only [List.all_cons, Bool.and_eq_true] at hp
+      have : a ≠ 35 := by
+        have := hp.1; simp only [lplain, Bool.and_eq_true, bne_iff_ne, ne_eq] at this; exact this.2
+      unfold tokRefs; split
+      · rename_i heq; injection heq with h1 _; exact absurd h1 this
+      · rfl
+  | string b hb => rfl
+  | ref ds _ _ _ => rfl
+
+variable {F : Type}
+
+/-- a parameter the lazy side covers: a `LazyTok` token between separator sequences, all bytes below 256 -/
+structure LazyParam (p : Param F) : Prop where
+  tok : LazyTok p.tok (tokRefs p.tok)
+  hb : Seps p.before
+  ha : Seps p.after
+  sm : Small (p.before ++ (p.tok ++ p.after))
+
+def paramsRefs (ps : List (Param F)) : List Nat := ps.flatMap (fun p => tokRefs p.tok)
+
+/-- the first byte after a separator sequence followed by `,` or `)` is no digit and no apostrophe -/
+theorem after_head (hraw : commentsRaw = true) (s : List Nat) (hs : Seps s) (hsm : Small s) (c : Char) (hc : c = ',' ∨ c = ')') (r : Bytes) :
+    (∀ x, (cs s ++ c :: r).head? = some x → isDigit x = false) ∧ (cs s ++ c :: r).head? ≠ some '\'' := by
+  obtain ⟨g, ws, hg, hws, he⟩ := seps_gap hraw s hs hsm
+  rw [he, gapRender_append]
+  obtain ⟨x, y, hxy, hx⟩ := gap_head g hg ws hws c r
+  rw [hxy]
+  simp only [List.head?_cons, Option.some.injEq, ne_eq]
+  rcases hx with hx | hx | hx
+  · have hnd : isDigit x = false := by
+      cases hd : isDigit x with
+      | false => rfl
+      | true => have := isDigit_not_space x hd; rw [hx] at this; cases this
+    have hnq : x ≠ '\'' := (space_ne x hx).2.2.2
+    exact ⟨fun z hz => (by rw [← hz]; exact hnd), hnq⟩
+  · subst hx; exact ⟨fun z hz => (by rw [← hz]; decide), (by decide)⟩
+  · subst hx; rcases hc with h | h <;> (subst h; exact ⟨fun z hz => (by rw [← hz]; decide), (by decide)⟩)
+
+/-- one parameter (layout, token, layout) followed by its delimiter -/
+theorem seekEnd_param (hraw : commentsRaw = true) (p : Param F) (hp : LazyParam p) (c : Char) (hc : c = ',' ∨ c = ')')
+    (k f : Nat) (d : Int) (acc : List Nat) (r : Bytes)
+    (hf : (p.before ++ (p.tok ++ p.after)).length + k ≤ f) :
+    ∃ f', k ≤ f' ∧ seekEnd f d acc (cs (p.before ++ (p.tok ++ p.after)) ++ c :: r) =
+      seekEnd f' d ((tokRefs p.tok).reverse ++ acc) (c :: r) := by
+  have s1 := hp.sm.app
+  have s2 := s1.2.app
+  obtain ⟨g1, w1, hg1, hw1, he1⟩ := seps_gap hraw p.before hp.hb s1.1
+  obtain ⟨g2, w2, hg2, hw2, he2⟩ := seps_gap hraw p.after hp.ha s2.2
+  have hl1 : (gapRender g1 w1 []).length = p.before.length := by rw [← he1, cs_length]
+  have hl2 : (gapRender g2 w2 []).length = p.after.length := by rw [← he2, cs_length]
+  simp only [List.length_append] at hf
+  obtain ⟨fa, hka, hea⟩ := seekEnd_gap hraw w1 hw1 g1 hg1 (p.tok.length + p.after.length + k) f d acc
+    (cs p.tok ++ (cs p.after ++ c :: r)) (by omega)
+  have hah := after_head hraw p.after hp.ha s2.2 c hc r
+  obtain ⟨fb, hkb, heb⟩ := seekEnd_tok p.tok _ hp.tok s2.1 (p.after.length + k) fa d acc (cs p.after ++ c :: r) hah.1 hah.2 (by omega)
+  obtain ⟨fc, hkc, hec⟩ := seekEnd_gap hraw w2 hw2 g2 hg2 k fb d ((tokRefs p.tok).reverse ++ acc) (c :: r) (by omega)
+  refine ⟨fc, hkc, ?_⟩
+  rw [cs_append, cs_append, List.append_assoc, List.append_assoc, he1, gapRender_append, hea, heb, he2, gapRender_append, hec]
+
+/-- the parameter list up to its closing parenthesis -/
+theorem seekEnd_params (hraw : commentsRaw = true) : ∀ (ps : List (Param F)), ps ≠ [] → (∀ p ∈ ps, LazyParam p) →
+    ∀ (k f : Nat) (d : Int) (acc : List Nat) (r : Bytes), (renderParams ps).length + k ≤ f →
+      ∃ f', k + 1 ≤ f' ∧ seekEnd f d acc (cs (renderParams ps) ++ r) = seekEnd f' d ((paramsRefs ps).reverse ++ acc) (')' :: r) := by
+  intro ps
+  induction ps with
+  | nil => intro h; exact absurd rfl h
+  | cons p qs ih =>
+    intro _ hall k f d acc r hf
+    have hp := hall p (by simp)
+    cases qs with
+    | nil =>
+      simp only [renderParams] at hf ⊢
+      have hlen : (p.before ++ (p.tok ++ (p.after ++ [41]))).length = (p.before ++ (p.tok ++ p.after)).length + 1 := by simp; omega
+      obtain ⟨f', hk, he⟩ := seekEnd_param hraw p hp ')' (Or.inr rfl) (k + 1) f d acc r (by omega)
+      refine ⟨f', hk, ?_⟩
+      have e : cs (p.before ++ (p.tok ++ (p.after ++ [41]))) ++ r = cs (p.before ++ (p.tok ++ p.after)) ++ ')' :: r := by
+        simp [cs, ch]
+      rw [e, he]
+      simp [paramsRefs]
+    | cons q qt =>
+      simp only [renderParams] at hf ⊢
+      have hlen : (p.before ++ (p.tok ++ (p.after ++ 44 :: renderParams (q :: qt)))).length =
+          (p.before ++ (p.tok ++ p.after)).length + 1 + (renderParams (q :: qt)).length := by simp; omega
+      obtain ⟨fa, hka, hea⟩ := seekEnd_param hraw p hp ',' (Or.inl rfl) ((renderParams (q :: qt)).length + k + 1) f d acc
+        (cs (renderParams (q :: qt)) ++ r) (by omega)
+      obtain ⟨fb, rfl⟩ : ∃ j, fa = j + 1 := ⟨fa - 1, by omega⟩
+      obtain ⟨f', hk, he⟩ := ih (by simp) (fun x hx => hall x (List.mem_cons_of_mem _ hx)) k fb d
+        ((tokRefs p.tok).reverse ++ acc) r (by omega)
+      refine ⟨f', hk, ?_⟩
+      have e : cs (p.before ++ (p.tok ++ (p.after ++ 44 :: renderParams (q :: qt)))) ++ r =
+          cs (p.before ++ (p.tok ++ p.after)) ++ ',' :: (cs (renderParams (q :: qt)) ++ r) := by
+        simp [cs, ch]
+      have hcomma : (',' == '(') = false ∧ (',' == '/') = false ∧ (',' == '\'') = false ∧ (',' == '=') = false ∧
+          (',' == '#') = false ∧ (',' == ')') = false := by decide
+      rw [e, hea, seekEnd_char _ _ _ _ _ hcomma, he]
+      simp [paramsRefs, List.reverse_append]
+
+
+/-- the lazy side's conditions on a record of the eager grammar: the keyword is written in upper case (`A-Z 0-9 _`), the instance name is
+    not `#0` and has at most 20 significant digits, every parameter is a `LazyParam`, all bytes are below 256 -/
+structure LazyRec (r : Rec F) : Prop where
+  up0 : StepModel.isUpper r.n0 = true
+  ups : r.ns.all (fun b => StepModel.isUpper b || StepModel.isDigit b || b == 95) = true
+  pos : 0 < StepModel.digitsVal r.ds 0
+  dlen : idLen (cs r.ds) ≤ instanceIdDigits
+  ps : ∀ p ∈ r.ps, LazyParam p
+  sm : Small (r.ds ++ (r.s1 ++ (r.s2 ++ (r.n0 :: r.ns ++ (r.s3 ++ r.s4)))))
+
+/-- what the lazy index records for a record -/
+def recEntry (r : Rec F) : Entry := { id := StepModel.digitsVal r.ds 0, kw := cs (r.n0 :: r.ns), refs := paramsRefs r.ps }
+
+/-- a record after the layout `lead`, as the scanner model sees it, followed by `rest` -/
+def lrec (lead : List Nat) (r : Rec F) (rest : Bytes) : Bytes :=
+  cs lead ++ ('#' :: (cs r.ds ++ (cs r.s1 ++ ('=' :: (cs r.s2 ++ (cs (r.n0 :: r.ns) ++ (cs r.s3 ++ ('(' ::
+    (cs (renderParams r.ps) ++ (cs r.s4 ++ (';' :: rest)))))))))))
+
+theorem lrec_eq (lead : List Nat) (r : Rec F) (rest : List Nat) : cs (lead ++ 35 :: r.text rest) = lrec lead r (cs rest) := by
+  simp [lrec, Rec.text, Rec.t1, Rec.t2, Rec.t3, Rec.t4, cs, ch]
+
+theorem lrec_length (lead : List Nat) (r : Rec F) (rest : Bytes) : (lrec lead r rest).length = (lrec lead r []).length + rest.length := by
+  simp [lrec]; omega
+
+set_option maxRecDepth 100000 in
+theorem kwb_facts : ∀ b, b < 256 → (StepModel.isUpper b || StepModel.isDigit b || b == 95) = true → isKwChar (ch b) = true := by decide
+
+/-- `readInstanceNumber` after any separator sequence (the repaired `skipWSandComments` in front of `#`) -/
+theorem readInstanceNumber_seps (gL : Gap) (wL : Bytes) (hgL : gapOk gL = true) (hwL : wL.all isSpace = true)
+    (ds : Bytes) (g1 : Gap) (w1 : Bytes) (hg1 : gapOk g1 = true) (hw1 : w1.all isSpace = true)
+    (dne : ds ≠ []) (dd : ds.all isDigit = true) (dlen : idLen ds ≤ instanceIdDigits)
+    (dpos : 0 < digitsVal ds) (dmax : digitsVal ds ≤ instanceIdMax) (u : Bytes) (f : Nat)
+    (hf : (gapRender gL wL ('#' :: (ds ++ gapRender g1 w1 ('=' :: u)))).length + 2 ≤ f) :
+    readInstanceNumber f (gapRender gL wL ('#' :: (ds ++ gapRender g1 w1 ('=' :: u)))) = .ok (digitsVal ds, u) := by
+  obtain ⟨d0, dt, rfl⟩ : ∃ d0 dt, ds = d0 :: dt := by
+    cases ds with
+    | nil => exact absurd rfl dne
+    | cons a b => exact ⟨a, b, rfl⟩
+  have hd0 : isDigit d0 = true := by simp at dd; exact dd.1
+  have hbh : beforeHash f (gapRender gL wL ('#' :: ((d0 :: dt) ++ gapRender g1 w1 ('=' :: u)))) =
+      .ok ('#' :: ((d0 :: dt) ++ gapRender g1 w1 ('=' :: u))) := by
+    unfold beforeHash
+    have : leadGap = true := rfl
+    simp only [this, ↓reduceIte]
+    exact skipWSC_gap wL hwL '#' (by decide) (by decide) (by decide) _ gL hgL f hf
+  have s00 : skipWS ('#' :: ((d0 :: dt) ++ gapRender g1 w1 ('=' :: u))) = '#' :: ((d0 :: dt) ++ gapRender g1 w1 ('=' :: u)) :=
+    skipWS_nonspace _ _ (by decide)
+  have s1 : skipWS ((d0 :: dt) ++ gapRender g1 w1 ('=' :: u)) = (d0 :: dt) ++ gapRender g1 w1 ('=' :: u) :=
+    skipWS_nonspace _ _ (isDigit_not_space d0 hd0)
+  have htd : takeDigits ((d0 :: dt) ++ gapRender g1 w1 ('=' :: u)) = (d0 :: dt, gapRender g1 w1 ('=' :: u)) :=
+    takeDigits_append (d0 :: dt) dd _ (by
+      intro c hc
+      obtain ⟨x, y, hxy, hx⟩ := gap_head g1 hg1 w1 hw1 '=' u
+      rw [hxy] at hc
+      have hcx : x = c := by simpa using hc
+      rw [← hcx]
+      cases hdg : isDigit x with
+      | false => rfl
+      | true =>
+        rcases hx with hx | hx | hx
+        · have := isDigit_not_space x hdg; rw [hx] at this; cases this
+        · rw [hx] at hdg; revert hdg; decide
+        · rw [hx] at hdg; revert hdg; decide)
+  have hbt := betweenTokens_gap g1 hg1 w1 hw1 '=' (by decide) (by decide) (by decide) u f (by
+    have h1 := gapRender_length gL wL ('#' :: ((d0 :: dt) ++ gapRender g1 w1 ('=' :: u)))
+    simp only [List.length_append, List.length_cons] at h1 hf ⊢
+    omega)
+  have hl1 : ¬ idLen (d0 :: dt) > instanceIdDigits := by omega
+  have hz : ((d0 :: dt).length == 0) = false := by simp
+  have hv : (digitsVal (d0 :: dt) == 0) = false := by simp; omega
+  simp only [readInstanceNumber, hbh, s00, s1, htd, hbt, hl1, hz, hv, ↓reduceIte, Bool.false_eq_true, Nat.min_eq_left dmax]
+
+
+theorem all_kw_cs : ∀ (l : List Nat), Small l → l.all (fun b => StepModel.isUpper b || StepModel.isDigit b || b == 95) = true →
+    (cs l).all isKwChar = true := by
+  intro l
+  induction l with
+  | nil => intro _ _; rfl
+  | cons a t ih =>
+    intro hs hu
+    simp only [List.all_cons, Bool.and_eq_true] at hu
+    simp only [cs_cons, List.all_cons, Bool.and_eq_true]
+    exact ⟨kwb_facts a hs.cons.1 hu.1, ih hs.cons.2 hu.2⟩
+
+/-- **one record of the eager grammar under `nextInstance`** -/
+theorem nextInstance_lrec (hraw : commentsRaw = true) (lead : List Nat) (hlead : Seps lead) (hls : Small lead)
+    (r : Rec F) (hlex : r.Lex) (hlz : LazyRec r) (rest : Bytes) (f : Nat) (hf : (lrec lead r rest).length + 6 ≤ f) :
+    nextInstance f (lrec lead r rest) = .ok (some (recEntry r, rest)) := by
+  -- all the separator sequences as gaps
+  have sm1 := hlz.sm.app
+  have sm2 := sm1.2.app
+  have sm3 := sm2.2.app
+  have sm4 := sm3.2.app
+  have sm5 := sm4.2.app
+  obtain ⟨gL, wL, hgL, hwL, heL⟩ := seps_gap hraw lead hlead hls
+  obtain ⟨g1, w1, hg1, hw1, he1⟩ := seps_gap hraw r.s1 hlex.h1 sm2.1
+  obtain ⟨g2, w2, hg2, hw2, he2⟩ := seps_gap hraw r.s2 hlex.h2 sm3.1
+  obtain ⟨g3, w3, hg3, hw3, he3⟩ := seps_gap hraw r.s3 hlex.h3 sm5.1
+  obtain ⟨g4, w4, hg4, hw4, he4⟩ := seps_gap hraw r.s4 hlex.h4 sm5.2
+  -- the pieces, innermost first
+  obtain ⟨P, hP⟩ : ∃ P, P = cs (renderParams r.ps) ++ (cs r.s4 ++ (';' :: rest)) := ⟨_, rfl⟩
+  obtain ⟨B, hB⟩ : ∃ B, B = cs r.s3 ++ ('(' :: P) := ⟨_, rfl⟩
+  obtain ⟨K, hK⟩ : ∃ K, K = cs r.s2 ++ (cs (r.n0 :: r.ns) ++ B) := ⟨_, rfl⟩
+  have hrender : lrec lead r rest = gapRender gL wL ('#' :: (cs r.ds ++ gapRender g1 w1 ('=' :: K))) := by
+    unfold lrec
+    rw [heL, gapRender_append, he1, gapRender_append, hK, hB, hP]
+  have hlen : (lrec lead r rest).length = lead.length + 1 + r.ds.length + r.s1.length + 1 + K.length := by
+    unfold lrec; rw [hK, hB, hP]; simp only [List.length_append, List.length_cons, cs_length]; omega
+  have hlenK : K.length = r.s2.length + (r.ns.length + 1) + B.length := by
+    rw [hK]; simp only [List.length_append, cs_length, List.length_cons]; omega
+  have hlenB : B.length = r.s3.length + 1 + P.length := by rw [hB]; simp only [List.length_append, cs_length, List.length_cons]; omega
+  have hlenP : P.length = (renderParams r.ps).length + r.s4.length + 1 + rest.length := by
+    rw [hP]; simp only [List.length_append, cs_length, List.length_cons]; omega
+  -- the instance name
+  have hdd := all_digit_cs r.ds sm1.1 hlex.ddig
+  have hdne : cs r.ds ≠ [] := by
+    intro e; have := congrArg List.length e; rw [cs_length] at this
+    exact hlex.dne (List.length_eq_zero_iff.mp (by simpa using this))
+  have hval := digitsVal_cs0 r.ds sm1.1
+  have hhi : StepModel.digitsVal r.ds 0 ≤ instanceIdMax := by
+    have h1 := hlex.dhi
+    unfold Rec.id at h1
+    have : ((StepModel.digitsVal r.ds 0 : Nat) : Int) ≤ 2147483647 := h1
+    have e : instanceIdMax = 18446744073709551615 := rfl
+    omega
+  have hrn := readInstanceNumber_seps gL wL hgL hwL (cs r.ds) g1 w1 hg1 hw1 hdne hdd hlz.dlen (by rw [hval]; exact hlz.pos)
+    (by rw [hval]; exact hhi) K f (by rw [← hrender]; omega)
+  -- the keyword
+  have hkwc : (cs (r.n0 :: r.ns)).all isKwChar = true := by
+    rw [cs_cons, List.all_cons, Bool.and_eq_true]
+    refine ⟨kwb_facts r.n0 sm4.1.cons.1 (by simp [hlz.up0]), ?_⟩
+    exact all_kw_cs r.ns sm4.1.cons.2 hlz.ups
+  -- the byte after the keyword: white space, `/` or `(`
+  obtain ⟨c, t, hBc, hc⟩ : ∃ c t, B = c :: t ∧ (isSpace c = true ∨ c = '/' ∨ c = '(') := by
+    rw [hB, he3, gapRender_append]
+    exact gap_head g3 hg3 w3 hw3 '(' P
+  have hcp : isKwChar c = false ∧ c ≠ '!' ∧ (keywordDelims.contains c || (kwSpaceDelim && isSpace c)) = true := by
+    rcases hc with h1 | h1 | h1
+    · refine ⟨?_, ?_, ?_⟩
+      · cases hk : isKwChar c with
+        | false => rfl
+        | true => have := (kwChar_props c hk).1; rw [h1] at this; cases this
+      · intro e; subst e; revert h1; decide
+      · have : kwSpaceDelim = true := rfl
+        simp [this, h1]
+    · subst h1; decide
+    · subst h1; decide
+  have hne : cs (r.n0 :: r.ns) ≠ [] := by simp [cs]
+  have hkl := kwLoop_gap w2 hw2 (cs (r.n0 :: r.ns)) hkwc c t hcp.1 hcp.2.1 (fun h0 => absurd h0 hne) g2 hg2 f (by
+    have h1 := gapRender_length g2 w2 (cs (r.n0 :: r.ns) ++ c :: t)
+    have h2 : (gapRender g2 w2 []).length = r.s2.length := by rw [← he2, cs_length]
+    rw [h1, h2, ← hBc]
+    simp only [List.length_append, cs_length, List.length_cons]
+    omega)
+  have hgk : getDelimitedKeyword f keywordDelims (skipWS K) = .ok (cs (r.n0 :: r.ns), B) := by
+    unfold getDelimitedKeyword
+    rw [skipWS_idem, hK, he2, gapRender_append, hBc, hkl]
+    simp only [hcp.2.2, ↓reduceIte]
+  -- the parameter list
+  have hse : seekEnd f 0 [] B = .ok (paramsRefs r.ps, rest) := by
+    have hl3 : (gapRender g3 w3 []).length = r.s3.length := by rw [← he3, cs_length]
+    have hl4 : (gapRender g4 w4 []).length = r.s4.length := by rw [← he4, cs_length]
+    obtain ⟨fa, hka, hea⟩ := seekEnd_gap hraw w3 hw3 g3 hg3 (P.length + 4) f 0 [] ('(' :: P) (by omega)
+    obtain ⟨fb, rfl⟩ : ∃ j, fa = j + 1 := ⟨fa - 1, by omega⟩
+    obtain ⟨fc, hkc, hec⟩ := seekEnd_params hraw r.ps hlex.pne hlz.ps (r.s4.length + rest.length + 3) fb 1 []
+      (cs r.s4 ++ (';' :: rest)) (by omega)
+    obtain ⟨fd, rfl⟩ : ∃ j, fc = j + 1 := ⟨fc - 1, by omega⟩
+    have hbt := betweenTokens_gap g4 hg4 w4 hw4 ';' (by decide) (by decide) (by decide) rest fd (by
+      have := gapRender_length g4 w4 (';' :: rest); simp only [List.length_cons] at this; omega)
+    rw [hB, he3, gapRender_append, hea]
+    simp only [seekEnd, beq_self_eq_true, ↓reduceIte]
+    rw [show (0 : Int) + 1 = 1 from rfl, hP, hec]
+    rw [he4, gapRender_append]
+    simp (config := { decide := true }) [seekEnd, hbt]
+  have hid : (digitsVal (cs r.ds) == 0) = false := by rw [hval]; simp; have := hlz.pos; omega
+  unfold nextInstance
+  rw [hrender, hrn]
+  simp only [hid, Bool.false_eq_true, ↓reduceIte, hgk, hse]
+  simp [recEntry, hval]
+
+
+/-! ### the data section -/
+
+def pieces (lead : List Nat) : List (Rec F × List Nat) → List ((Bytes → Bytes) × Entry)
+  | [] => []
+  | (r, g) :: t => (lrec lead r, recEntry r) :: pieces g t
+
+def lastLead (lead : List Nat) : List (Rec F × List Nat) → List Nat
+  | [] => lead
+  | (_, g) :: t => lastLead g t
+
+theorem cs_renderRecs (fin : List Nat) : ∀ (rs : List (Rec F × List Nat)) (lead : List Nat),
+    cs (lead ++ renderRecs rs fin) = (pieces lead rs).foldr (fun p x => p.1 x) (cs (lastLead lead rs) ++ cs fin) := by
+  intro rs
+  induction rs with
+  | nil => intro lead; simp [renderRecs, pieces, lastLead, cs_append]
+  | cons rg t ih =>
+    intro lead
+    obtain ⟨r, g⟩ := rg
+    simp only [renderRecs, pieces, lastLead, List.foldr_cons]
+    rw [lrec_eq, ih g]
+
+theorem pieces_map (rs : List (Rec F × List Nat)) : ∀ lead, (pieces lead rs).map (·.2) = rs.map (fun rg => recEntry rg.1) := by
+  induction rs with
+  | nil => intro _; rfl
+  | cons rg t ih => intro lead; obtain ⟨r, g⟩ := rg; simp [pieces, ih g]
+
+theorem pieces_length (rs : List (Rec F × List Nat)) : ∀ lead, (pieces lead rs).length = rs.length := by
+  induction rs with
+  | nil => intro _; rfl
+  | cons rg t ih => intro lead; obtain ⟨r, g⟩ := rg; simp [pieces, ih g]
+
+/-- what the lazy side needs of every record and of the layout after it -/
+def LazyRecs (rs : List (Rec F × List Nat)) : Prop :=
+  ∀ rg ∈ rs, rg.1.Lex ∧ LazyRec rg.1 ∧ Seps rg.2 ∧ Small rg.2
+
+theorem pieces_next (hraw : commentsRaw = true) (fuel : Nat) : ∀ (rs : List (Rec F × List Nat)), LazyRecs rs →
+    ∀ (lead : List Nat), Seps lead → Small lead →
+      (∀ p ∈ pieces lead rs, ∀ rest, (p.1 rest).length + 6 ≤ fuel → nextInstance fuel (p.1 rest) = .ok (some (p.2, rest))) ∧
+      (∀ p ∈ pieces lead rs, ∀ rest, rest.length ≤ (p.1 rest).length) ∧
+      Seps (lastLead lead rs) ∧ Small (lastLead lead rs) := by
+  intro rs
+  induction rs with
+  | nil => intro _ lead hl hs; exact ⟨fun p hp => (by cases hp), fun p hp => (by cases hp), hl, hs⟩
+  | cons rg t ih =>
+    intro hall lead hl hs
+    obtain ⟨r, g⟩ := rg
+    have h0 := hall (r, g) (by simp)
+    obtain ⟨i1, i2, i3, i4⟩ := ih (fun x hx => hall x (List.mem_cons_of_mem _ hx)) g h0.2.2.1 h0.2.2.2
+    refine ⟨?_, ?_, i3, i4⟩
+    · intro p hp rest hlen
+      simp only [pieces, List.mem_cons] at hp
+      rcases hp with h | h
+      · subst h; exact nextInstance_lrec hraw lead hl hs r h0.1 h0.2.1 rest fuel hlen
+      · exact i1 p h rest hlen
+    · intro p hp rest
+      simp only [pieces, List.mem_cons] at hp
+      rcases hp with h | h
+      · subst h; have := lrec_length lead r rest; simp only; omega
+      · exact i2 p h rest
+
+theorem cs_endsec (sp tail : List Nat) : cs (RLemmas.endsec sp tail) = endsecBytes (cs sp) (cs tail) := by
+  simp [RLemmas.endsec, endsecBytes, cs, ch]
+
+/-- **the lazy scanner on a data section of the eager reader's file class** -/
+theorem scan_recs (hraw : commentsRaw = true) (rs : List (Rec F × List Nat)) (hrs : LazyRecs rs)
+    (g0 sp tail : List Nat) (hg0 : Seps g0) (hs0 : Small g0) (hsp : sp.all StepModel.isSpace = true) (hssp : Small sp) :
+    scan (cs (g0 ++ renderRecs rs (RLemmas.endsec sp tail))) = .ok (rs.map (fun rg => recEntry rg.1), true) := by
+  obtain ⟨i1, i2, i3, i4⟩ := pieces_next hraw (4 * (cs (g0 ++ renderRecs rs (RLemmas.endsec sp tail))).length + 16) rs hrs g0 hg0 hs0
+  obtain ⟨gT, wT, hgT, hwT, heT⟩ := seps_gap hraw (lastLead g0 rs) i3 i4
+  have hfile := cs_renderRecs (RLemmas.endsec sp tail) rs g0
+  have htailEq : cs (lastLead g0 rs) ++ cs (RLemmas.endsec sp tail) = endsecG gT wT (cs sp) (cs tail) := by
+    rw [heT, gapRender_append, cs_endsec]; rfl
+  rw [htailEq] at hfile
+  have hsp' := all_space_cs sp hssp hsp
+  -- the tail is no longer than the file
+  have hmono : ∀ (ps : List ((Bytes → Bytes) × Entry)) (x : Bytes), (∀ p ∈ ps, ∀ rest, rest.length ≤ (p.1 rest).length) →
+      x.length ≤ (ps.foldr (fun p y => p.1 y) x).length := by
+    intro ps x
+    induction ps with
+    | nil => intro _; simp
+    | cons p t ih =>
+      intro h
+      have h1 := ih (fun q hq => h q (List.mem_cons_of_mem _ hq))
+      have h2 := h p (by simp) (t.foldr (fun p y => p.1 y) x)
+      simp only [List.foldr_cons]; omega
+  have hcount : ∀ (ps : List ((Bytes → Bytes) × Entry)) (x : Bytes), (∀ p ∈ ps, ∀ rest, rest.length + 1 ≤ (p.1 rest).length) →
+      ps.length ≤ (ps.foldr (fun p y => p.1 y) x).length := by
+    intro ps x
+    induction ps with
+    | nil => intro _; simp
+    | cons p t ih =>
+      intro h
+      have h1 := ih (fun q hq => h q (List.mem_cons_of_mem _ hq))
+      have h2 := h p (by simp) (t.foldr (fun p y => p.1 y) x)
+      simp only [List.foldr_cons, List.length_cons]; omega
+  have hge1 : ∀ p ∈ pieces g0 rs, ∀ rest, rest.length + 1 ≤ (p.1 rest).length := by
+    -- every piece contains at least its `#`
+    have : ∀ (rs : List (Rec F × List Nat)) (lead : List Nat), ∀ p ∈ pieces lead rs, ∀ rest, rest.length + 1 ≤ (p.1 rest).length := by
+      intro rs
+      induction rs with
+      | nil => intro _ p hp; cases hp
+      | cons rg t ih =>
+        intro lead p hp rest
+        obtain ⟨r, g⟩ := rg
+        simp only [pieces, List.mem_cons] at hp
+        rcases hp with h | h
+        · subst h; simp only [lrec, List.length_append, List.length_cons]; omega
+        · exact ih g p h rest
+    exact this rs g0
+  have hLt := hmono (pieces g0 rs) (endsecG gT wT (cs sp) (cs tail)) i2
+  have hLc := hcount (pieces g0 rs) (endsecG gT wT (cs sp) (cs tail)) hge1
+  unfold scan
+  rw [hfile] at i1 ⊢
+  have htail := nextInstance_endsecG gT hgT wT (cs sp) (cs tail) hwT
+    (4 * ((pieces g0 rs).foldr (fun p x => p.1 x) (endsecG gT wT (cs sp) (cs tail))).length + 16) (by omega)
+  have hse := sectionEnd_endsecG gT hgT wT (cs sp) (cs tail) hwT hsp'
+    (4 * ((pieces g0 rs).foldr (fun p x => p.1 x) (endsecG gT wT (cs sp) (cs tail))).length + 16) (by omega)
+  rw [scanLoop_pieces _ _ htail (pieces g0 rs) i1 i2 (by omega) _ (by omega) [], hse, pieces_map]
+  simp
+
+
+/-! ### the covered scalar tokens of the eager grammar are `LazyTok`s -/
+
+set_option maxRecDepth 100000 in
+theorem digit_lplain' : ∀ c, c < 256 → StepModel.isDigit c = true → lplain c = true := by decide
+set_option maxRecDepth 100000 in
+theorem pw_lplain' : ∀ c, c < 256 → pw c = true → lplain c = true := by decide
+set_option maxRecDepth 100000 in
+theorem xdigit_lplain' : ∀ c, c < 256 → StepModel.isXDigit c = true → lplain c = true := by decide
+
+theorem all_lplain_of (p : Nat → Bool) (hp : ∀ c, c < 256 → p c = true → lplain c = true) :
+    ∀ (l : List Nat), Small l → l.all p = true → l.all lplain = true := by
+  intro l
+  induction l with
+  | nil => intro _ _; rfl
+  | cons a t ih =>
+    intro hs h
+    simp only [List.all_cons, Bool.and_eq_true] at h ⊢
+    exact ⟨hp a hs.cons.1 h.1, ih hs.cons.2 h.2⟩
+
+theorem sign_lplain {sg : List Nat} (h : IsSign sg) : sg.all lplain = true := by
+  rcases h with rfl | rfl | rfl <;> decide
+
+theorem isInteger_lplain (t : List Nat) (hs : Small t) (h : isInteger t = true) : t.all lplain = true := by
+  obtain ⟨sg, hsg, ht, _⟩ := splitSign_append t
+  unfold isInteger at h
+  simp only [Bool.and_eq_true, allDigits] at h
+  have hs2 : Small (splitSign t).2 := by rw [ht] at hs; exact hs.app.2
+  rw [ht, List.all_append, sign_lplain hsg, all_lplain_of _ digit_lplain' _ hs2 h.2]
+  rfl
+
+theorem isReal_lplain (t : List Nat) (hs : Small t) (h : isReal t = true) : t.all lplain = true := by
+  obtain ⟨sg, ip, fp, ex, rfl, hsg, _, hip, hfp, hex⟩ := isReal_shape t h
+  unfold realText at hs
+  have s1 := hs.app
+  have s2 := s1.2.app
+  have s3 := s2.2.cons.2.app
+  have h1 := sign_lplain hsg
+  have h2 := all_lplain_of _ digit_lplain' ip s2.1 hip
+  have h3 := all_lplain_of _ digit_lplain' fp s3.1 hfp
+  have h4 : (exText 69 ex).all lplain = true := by
+    cases ex with
+    | none => rfl
+    | some p =>
+      obtain ⟨esg, ed⟩ := p
+      obtain ⟨hes, _, hed⟩ := hex
+      have s4 : Small (69 :: (esg ++ ed)) := s3.2
+      have := sign_lplain hes
+      have := all_lplain_of _ digit_lplain' ed s4.cons.2.app.2 hed
+      simp_all [exText, lplain]
+  simp_all [realText, lplain]
+
 end StepModel.Lazy
